@@ -762,7 +762,29 @@ func (w *world) nextPayload() []byte {
 	return []byte(id)
 }
 
+// infoOp submits a real GetInfo task (the raft goroutine waits for the FSM
+// goroutine inside it, see the fsm.wait hook) and checks the report.
+func (w *world) infoOp(n *simNode) error {
+	t := GetInfo()
+	st := w.track("info", n, "", t, innerTask(t))
+	if err := n.stepLoop(func() error { return simSendTask(n.r, t) }); err != nil {
+		return err
+	}
+	select {
+	case <-t.Done():
+		if info, ok := t.Result().(Info); ok {
+			w.led.onInfoReport(n, info)
+		}
+	default:
+		_ = st
+	}
+	return nil
+}
+
 func (w *world) clientOp(n *simNode, op string) error {
+	if op == "info" {
+		return w.infoOp(n)
+	}
 	var tasks []FSMTask
 	mk := func(kind string) {
 		var t FSMTask
